@@ -7,6 +7,7 @@ import PsModel.NthPrime
 import PsProofs.IterSim
 import PsProofs.NthPrime
 import PsProps.C04
+import PsModel.Generated.Locks
 
 namespace Ps.Props
 open Ps Ps.Spec
@@ -102,5 +103,14 @@ theorem C07_nth_value {env : Env} (henv : EnvOK env) (kf : Nat → Nat) (cnt : N
 theorem C07_count_hypothesis {isP : Nat → Bool} (hP : IsPrimeOK isP) (a b : Nat) :
     (primeSieveCounts isP a b 1).getD 0 0 = (primesIn a b).length := by
   rw [C04_count_single hP a b 1 (by decide), C04_agrees_with_enumeration]
+
+/-- **C07 (model sources)** regenerated on every run: digests of the (comment-, hook- and whitespace-normalised) bodies of the
+    functions that the hand-written model behind the theorems of this file mirrors.  An edit to one of
+    them — harmless or not — breaks this obligation; the check then searches for a failing input
+    with the correspondence streams (DESIGN.md section 2, step 5). -/
+theorem C07_model_sources :
+    Gen.modelSources.filter (fun e => e.1 ∈ ["nthPrime.nthPrime", "nthPrime.negativeNthPrime"]) =
+     [("nthPrime.nthPrime", "0c3c71e817bf09a16b5a"),
+      ("nthPrime.negativeNthPrime", "7eb8fa87daaeafd100a8")] := by decide
 
 end Ps.Props
